@@ -168,7 +168,7 @@ theorem pollMulti_uninit_spec (s : St) (subs : List Nat) (consume : Nat) (hc : C
           exact ⟨hok, b⟩
         · simp only [hp0, if_false]
           obtain ⟨w, x, y, z⟩ := loopPoll_spec subs consume 2 s1 p' hc1 (by rw [pf.taskCount]; exact htc0) hF1
-            (by rw [pf.senders, pf.bcArg, hs0, hb0]; exact hacc)
+            (by rw [pf.senders, pf.bcArg, hs0, hb0]; exact hacc) hp0
           exact ⟨w, x.trans (pf.senders.trans hs0), y.trans (pf.bcArg.trans hb0), z⟩
   unfold discard
   split
